@@ -50,6 +50,24 @@ def gen_case(rng, kind):
         els.append(gg.transform(e, kind, 1, 5 * i, int(rng.integers(0, 30))))
         o = gg.rand_element(rng, ok_, 3)
         other.append(gg.transform(o, ok_, 1, int(rng.integers(0, 60)), 5 * (n - i)))
+    exact = bool(rng.random() < 0.6)
+    if not exact:
+        # full-precision float coordinates: the recorded extents must still be *exactly* those of the
+        # stored rows (values are read, not computed); the row-level oracle is skipped for these
+        def jit(flat_):
+            return [float(v + rng.uniform(-0.49, 0.49)) for v in flat_]
+        def jel(kind_, e):
+            n_ = gg.nesting(kind_)
+            if n_ == 0:
+                out = jit(e)
+                if kind_ == "ring":
+                    out[-2:] = out[:2]
+                return out
+            if n_ == 1:
+                return [jit(p_) for p_ in e]
+            return [[jit(r_) for r_ in p_] for p_ in e]
+        els = [jel(kind, e) for e in els]
+        other = [jel(ok_, e) for e in other]
     for _ in range(int(rng.integers(0, 4))):
         els[int(rng.integers(n))] = None
     if rng.random() < 0.3:
@@ -64,7 +82,7 @@ def gen_case(rng, kind):
             "npartitions": int(rng.choice([1, 2, 3, 7, 11, 12, 16])),
             "geometry": [None, "ga", "gb"][int(rng.integers(3))],
             "multi": ["none", "none", "list", "glob"][int(rng.integers(4))],
-            "rewrite": bool(rng.random() < 0.3),
+            "rewrite": bool(rng.random() < 0.3), "exact": exact,
             "seed": int(rng.integers(2 ** 31))}
 
 
@@ -203,8 +221,12 @@ def check_case(ctx, case):
             boxes = []
             if fin:
                 b0 = fin[int(rng.integers(len(fin)))]
-                boxes.append([b0[2], b0[1], b0[2] + 7, b0[3]])                 # touches an extent exactly
-                boxes.append([b0[0] - 3, b0[3], b0[0], b0[3] + 2])             # touches a corner
+                # touching the recorded extent exactly on each of its four sides, and at a corner
+                boxes.append([b0[2], b0[1], b0[2] + 7, b0[3]])
+                boxes.append([b0[0] - 7, b0[1], b0[0], b0[3]])
+                boxes.append([b0[0], b0[3], b0[2], b0[3] + 7])
+                boxes.append([b0[0], b0[1] - 7, b0[2], b0[1]])
+                boxes.append([b0[0] - 3, b0[3], b0[0], b0[3] + 2])
                 boxes.append([b0[2], b0[3], b0[0], b0[1]])                     # reversed corners
             boxes.append([10 ** 6, 10 ** 6, 10 ** 6 + 1, 10 ** 6 + 1])        # disjoint from everything
             boxes.append([-10, -10, 10 ** 5, 10 ** 5])                         # covers everything
@@ -232,12 +254,13 @@ def check_case(ctx, case):
                 pw = {"box": bx, "recorded": recv[:8], "kept_expected": keep}
                 if [r_ for r_ in got_ids if r_ not in nan_ids] != exp_ids and len(got) > 0 or \
                         (len(got) == 0 and exp_ids):
-                    viol("prune-set", f"partition-bounds:wrong-partitions-kept:{'touching' if bx in boxes[:2] else 'reversed' if bx == boxes[2] and fin else 'other'}",
+                    viol("prune-set", f"partition-bounds:wrong-partitions-kept:{'touching' if (fin and bx in boxes[:5]) else 'reversed' if (fin and bx == boxes[5]) else 'other'}",
                          exp_ids[:20], got_ids[:20], pw)
                 # no intersecting row lost (row-level exact oracle, integer coordinates)
                 B = np.array([[int(round(2 * v)) for v in nb]], dtype=np.int64)
                 lost = []
-                if nb[0] < nb[2] and nb[1] < nb[3] and all(abs(v) < 2 ** 24 for v in nb):
+                if case.get("exact", True) and nb[0] < nb[2] and nb[1] < nb[3] and all(abs(v) < 2 ** 24 for v in nb) \
+                        and all(float(2 * v).is_integer() for v in nb):
                     gset = set(got_ids)
                     for pt in all_rows:
                         for rid, el in zip(pt["rid"].tolist(), gg.pylist(pt[act].array)):
